@@ -44,7 +44,7 @@ fn candidates(sc: &Scenario, vround: usize) -> Vec<Scenario> {
         for r in s.rounds.iter_mut() {
             let before = r.edits.len();
             r.edits.retain(|e| match e {
-                Edit::AddJob { def } | Edit::RemoveJob { def } | Edit::BumpExt { def } | Edit::DeleteOutput { def, .. } | Edit::SetParts { def, .. } | Edit::SetKind { def, .. } => *def != d,
+                Edit::AddJob { def } | Edit::RemoveJob { def } | Edit::BumpExt { def } | Edit::RevertExt { def } | Edit::DeleteOutput { def, .. } | Edit::SetParts { def, .. } | Edit::SetKind { def, .. } => *def != d,
                 Edit::AddEdge { down, up, .. } | Edit::RemoveEdge { down, up } => *down != d && *up != d,
             });
             changed |= before != r.edits.len();
